@@ -12,6 +12,8 @@ A case is plain JSON:
   scripts : [[h, [[m, [action..]]..]]..]
   ops     : [action..]      the top level program
   dkind   : 'plain' (EventDispatcher) | 'world' (a World used through its dispatcher API)
+  falsy   : per class 0 | 1 (instances define __bool__ -> False) | 2 (__len__ -> 0); the harness never
+            uses the truth value or == of a handler, only identity
 Actions: ['add',h] ['remove',h] ['is',h] ['dispatch',e,a] ['enable',0|1] ['clear'] ['raise'] ['drop',h]
          World components (holder 'ctl', dispatcher = World): ['create',h] ['removec',h] ['replace',h,h2]
          (skipped, and logged as skipped, when their precondition does not hold)
@@ -115,6 +117,11 @@ class Runner:
                     ns['__annotations__'] = {'v': int, 'hid': int}
             for i in own:
                 ns['n%d' % i] = make_method(i, ci)
+            falsy = (case.get('falsy') or [0] * len(case['classes']))[ci]
+            if falsy == 1 and not frozen:
+                ns['__bool__'] = lambda self: False           # a handler that is falsy
+            elif falsy == 2 and not frozen:
+                ns['__len__'] = lambda self: 0                 # ... or an empty container
             k = type('C%d' % ci, tuple(self.classes[b] for b in bases) or (object,), ns)
             if frozen:
                 import dataclasses
@@ -705,8 +712,13 @@ def gen_case(rng, mode):
                     ops.append(top_op())
                 if ctl and rng.random() < 0.3:
                     ops.append(['removec', rng.choice(ctl)])
+    # a third of the cases have handler classes whose instances are falsy (identity and default
+    # equality untouched): nothing may depend on the truth value of a handler
+    falsy = [0] * len(classes)
+    if rng.random() < 0.35:
+        falsy = [rng.choice([0, 1, 2]) if rng.random() < 0.8 else 0 for _ in classes]
     return dict(classes=classes, hcls=hcls, holder=holder, eqs=[], scripts=scripts, ops=ops,
-                dkind=dkind)
+                dkind=dkind, falsy=falsy)
 
 
 def gen_cases(rng, mode, n):
@@ -777,6 +789,7 @@ def stats(cases, traces):
                     'relayed_on_add_delivered': sum(1 for t in traces for e in t.get('log', [])
                                                     if e[0] == 'call' and e[4] == RELAY)} | {
                     k: acts.get(k, 0) for k in ('create', 'removec', 'replace')},
+                cases_with_falsy_handlers=sum(1 for c in cases if any(c.get('falsy') or [])),
                 undecorated_classes=sum(1 for c in cases for x in c['classes']
                                         if not x['names'] and not x['maps']))
 
